@@ -122,7 +122,17 @@ def run(r):
             r.fail("history", {"seed": seed, "length": L, "log": log}, err)
 
 
+    # probe of the known class D8: concatenate shares the other sequence's message objects
+    a, b = rseq([['on', 60, 0, 64], 24, ['off', 60, 0]]), rseq([['on', 62, 0, 64], 24, ['off', 62, 0]])
+    a.concatenate([b]); a.abs; b.transpose(1)
+    r.case("d8_probe", ["concatenate", "other.transpose"])
+    if canon(timeline_abs(a.abs._messages)) != canon(timeline_rel(a.rel._messages)):
+        r.fail("d8_probe", {"probe": "a.concatenate([b]); a.abs; b.transpose(1)"}, "a's two views disagree after operating on b", klass="D8-concatenate-shares-messages")
+
+
 def replay(r, chk, inp):
+    if chk == "d8_probe":
+        return
     log, err = history(r, inp["seed"], inp["length"])
     if err:
         r.fail("history", inp, err)
